@@ -4,6 +4,7 @@
 # private mount namespace (unshare -m, bind mounts), so /repo itself is never touched and the workers do not wait for
 # each other.  Scratch under /tmp/regr-*, removed at the end.  Result: seeded/REGRESSION.txt (one line per change).
 N=${1:-4}
+PAT=${2:-}   # optional: only the seeded changes whose directory name contains this (result then in seeded/REGRESSION.<PAT>.txt)
 V=$(cd "$(dirname "$0")"/.. && pwd)
 S=/tmp/regr-$$
 mkdir -p $S
@@ -11,10 +12,10 @@ git -C $V worktree add --detach $S/tree HEAD >/dev/null 2>&1 || exit 2
 (cd $S/tree && flock -s /tmp/repo-mutation.lock ./setup.sh >/dev/null 2>&1)
 for k in $(seq 0 $((N-1))); do
   cp -a /repo $S/repo-$k; cp -a $S/tree $S/tree-$k; : > $S/lock-$k
-  unshare -m bash -c "mount --bind $S/repo-$k /repo && mount --bind $S/lock-$k /tmp/repo-mutation.lock && cd $S/tree-$k && tools/seed_part.sh $k $N" > $S/worker-$k.log 2>&1 &
+  unshare -m bash -c "mount --bind $S/repo-$k /repo && mount --bind $S/lock-$k /tmp/repo-mutation.lock && cd $S/tree-$k && tools/seed_part.sh $k $N $PAT" > $S/worker-$k.log 2>&1 &
 done
 wait
-cat $S/tree-*/seeded/REGRESSION.*.txt | grep -v '^DONE' | sed "s|$S/tree-[0-9]*/|/verif/|g" | sort > $V/seeded/REGRESSION.txt
+cat $S/tree-*/seeded/REGRESSION.*.txt | grep -v '^DONE' | sed "s|$S/tree-[0-9]*/|/verif/|g" | sort > $V/seeded/REGRESSION${PAT:+.$PAT}.txt
 git -C $V worktree remove --force $S/tree; git -C $V worktree prune
 rm -rf $S
-echo "changes: $(wc -l < $V/seeded/REGRESSION.txt)  not caught: $(grep -c 'caught_by= \[\]' $V/seeded/REGRESSION.txt)  errors: $(grep -c '^ERR' $V/seeded/REGRESSION.txt)"
+echo "changes: $(wc -l < $V/seeded/REGRESSION${PAT:+.$PAT}.txt)  not caught: $(grep -c 'caught_by= \[\]' $V/seeded/REGRESSION${PAT:+.$PAT}.txt)  errors: $(grep -c '^ERR' $V/seeded/REGRESSION${PAT:+.$PAT}.txt)"
